@@ -511,6 +511,32 @@ fn families(thorough: bool) -> Vec<Prog> {
             }
         }
     }
+    // ---- 8. a free name of an imported file denotes the nearest declaration preceding *that*
+    //         import statement: the same file imported from scopes where the name is another
+    //         constant, a run-time value, another type (rejected), or not declared (rejected);
+    //         by separate programs of this process and twice within one program
+    let outer_file = "/verif/harness/corpus/uses_outer.ssl"; // y := x + 1; z := (v: int) -> int { return v + x };
+    for (decl, want) in [("x := 10", Some("(11, 11)")), ("x := 1", Some("(2, 2)")), ("x := id(5) + 0", None), ("x := \"s\"", None), ("w := 1", None), ("x := 3", Some("(4, 4)"))] {
+        // `id` returns any: x + 1 on any is rejected
+        out.push(Prog {
+            family: format!("import sees the scope of its import site: {decl}"),
+            stmts: pre(vec![decl.into(), format!("m := import \"{outer_file}\""), "(m.y, m.z(1))".into()]),
+            expected: want.map(|w| w.to_string()),
+            names: if want.is_some() { with_names(&[decl.split(' ').next().unwrap(), "m"]) } else { vec![] },
+        });
+    }
+    out.push(Prog {
+        family: "the same file imported twice in one program".into(),
+        stmts: pre(vec!["x := 1".into(), format!("a := import \"{outer_file}\""), format!("r := {{ x := 5; b := import \"{outer_file}\"; (b.y, b.z(1)) }}"), "x := 7".into(), format!("c := import \"{outer_file}\""), "(a.y, a.z(1), r, c.y, c.z(1))".into()]),
+        expected: Some("(2, 2, (6, 6), 8, 8)".into()),
+        names: with_names(&["x", "a", "r", "c"]),
+    });
+    out.push(Prog {
+        family: "the same file imported inside a function called with different arguments".into(),
+        stmts: pre(vec![format!("imp := (x: int) -> any {{ m := import \"{outer_file}\"; return (m.y, m.z(1)) }}"), "(imp(1), imp(10))".into()]),
+        expected: Some("((2, 2), (11, 11))".into()),
+        names: with_names(&["imp"]),
+    });
     out
 }
 
